@@ -7,7 +7,7 @@ EXPLANATION = ("O1 in the operation issue point, when the handle's timeout is So
                "argument is the ID allocated for this very operation, and the Elapsed error is then propagated; without a timeout the bare "
                "receiver is awaited; O2 the same for every stream item (timer built inside the per-item call, duration copied from the "
                "handle at start, scrub of the stream's own operation ID); O3 the driver's scrub arm removes the ID from both routing maps "
-               "and the in-use set and neither breaks nor returns; O6 on every exit of an issued operation the handle's timeout is None; O4 the late reply is discarded because the ID is then unrouted (C01 R5). "
+               "and the in-use set and neither breaks nor returns; O6 on every exit of an issued operation the handle's timeout is None; O8 the ID the scrub releases is not handed out again at once: every allocation searches upwards from the connection-wide counter, never from per-handle state (C05 N2 / N4 / N8); O4 the late reply is discarded because the ID is then unrouted (C01 R5). "
                "Not decided: that the timer fires on time; arrival-time orderings (tokio's clock and scheduler).")
 TRUSTED = ['tokio::time::timeout semantics', 'tokio scheduler']
 UNDECIDED = ['that the timer fires at the deadline', 'all orderings of arrival vs deadline']
@@ -16,7 +16,15 @@ SHARED = [('C01', ('R5.',), 'O4.late-reply-discarded'), ('C16', ('A2.splices-new
           # "an operation given a timeout returns a timeout error": the Timeout that next_inner raises for a silent peer has to get through
           # every adapter of the chain to the caller of next() / search() as that error - an adapter that answers Ok(None) (or goes on)
           # on a path on which its upstream next() failed turns the timeout into a regular end of the search
-          ('C10', ('Q8.adapter-passes-upstream-error', 'Q4.entries-only.end-passthrough'), 'O7.timeout-error-passes-the-adapters')]      # after the scrub the ID is routed nowhere: an unmatched frame must reach nobody
+          ('C10', ('Q8.adapter-passes-upstream-error', 'Q4.entries-only.end-passthrough'), 'O7.timeout-error-passes-the-adapters'),
+          # "the late response to the timed-out operation is discarded rather than delivered to anyone": the scrub un-routes and releases
+          # the ID, so the late reply finds no owner - as long as the ID has no NEW owner yet.  That is the allocator's half of the clause:
+          # an ID released by a timeout scrub must not be the next one issued merely because it is the lowest free one, i.e. allocation
+          # is monotone over the connection - every search for a free ID starts from the counter shared by all handles (C05
+          # N2.init-from-counter: not from per-handle state, which is 0 in every clone and every Search runs on one), and that counter
+          # is left at the ID just claimed and at nothing else (N4.store-candidate, N8), so a released ID comes round again only
+          # after the numbering has gone through the whole range
+          ('C05', ('N2.init-from-counter', 'N4.store-candidate', 'N8.'), 'O8.released-id-not-reissued-at-once')]      # after the scrub the ID is routed nowhere: an unmatched frame must reach nobody
 
 TIMEOUT = 'tokio::time::timeout::timeout'
 SELF = ('param', 'self')
@@ -95,7 +103,9 @@ def run(ctx):
     ctx.analysed['bodies'].update([O.path, C.loop_path])
 
     # ---- O1
-    outs, _I = sem.paths(f, O, result_combinators=True)
+    # (the allocator is a `&mut self` method: what it leaves in the handle's own fields - `self.last_id = id` may live there as well
+    # as in the issue point - is part of what the issue point reads afterwards, see sem.leaves_result_in_fields)
+    outs, _I = sem.paths(f, O, result_combinators=True, summaries=[sem.leaves_result_in_fields(f, C.alloc_path, generic_loops=True, combinators=True)])
     ids = {sem.strip_site(('call', cal, args, None)) for o in outs for i, cal, args, node in sem.calls(o, lambda c: c == C.alloc_path)}
     ctx.add('O1.single-allocation', O.path, loc(O.root), len(ids) == 1, 'expected one ID allocation per operation')
     id_term = next(iter(ids)) if ids else None
@@ -112,7 +122,10 @@ def run(ctx):
             'the awaited receiver is not the one paired with the reply sender handed to the driver')
     timeout_field = lambda v: v == ('field', SELF, 'timeout') or sem.taken_from(v, lambda p: p == ('field', SELF, 'timeout'))
     check_timed_wait(ctx, 'O1', O, outs, is_rx, timeout_field,
-                     lambda a, o: id_term is not None and sem.strip_site(a) == id_term, 'the ID allocated for this operation')
+                     lambda a, o: id_term is not None and sem.strip_site(a) == id_term,
+                     lambda a: 'the scrubbed ID %s is not the ID allocated for this operation' % (
+                         'is what `%s` leaves in %s, which is not on every path the ID it returns: it' % (a[1].rsplit('::', 1)[-1], absx.fmt(a[2])[:40]) if a[0] == 'left-by'
+                         else absx.fmt(a)[:60]) + ': the driver releases and un-routes whatever ID that is (a stale `last_id` names the handle\'s previous operation - on a stream\'s handle the running Search, still outstanding), while this operation\'s own ID and routing entry stay behind and its late reply is still delivered')
 
     # ---- O6 the timeout is one operation's: on every path that handed the request to the driver and leaves the issue point - the
     # reply arrived, the reply channel closed, or the timeout elapsed - the handle's timeout is None at the exit (taken, or reset on
